@@ -21,7 +21,7 @@ impl Cb {
     pub fn is_handler(self) -> bool {
         !matches!(self, Cb::Started | Cb::Stopped | Cb::Finished)
     }
-    fn code(self) -> u64 {
+    pub fn code(self) -> u64 {
         match self {
             Cb::Started => 1,
             Cb::Stopped => 2,
@@ -136,7 +136,7 @@ pub enum CtxOp {
     Publish(u8),
 }
 
-#[derive(Clone, Copy, Debug, PartialEq, Eq, Hash, Serialize)]
+#[derive(Clone, Copy, Debug, PartialEq, Eq, Hash, Serialize, PartialOrd, Ord)]
 pub enum Phase {
     ClientsStarted,
     ClientsDone,
